@@ -165,4 +165,28 @@ example : let callee : ECtx := (({} : ECtx).setLocal "a" (.int ⟨0x11, none⟩)
   rw [by_value_local_reaches_the_block callee "y" (by decide)]
   simp [callee, ECtx.setLocal, Locals.set, Locals.get]
 
+
+/-! ### where a block ends (finding F64, repaired) -/
+
+/-- **a comment or a string literal inside a block is stepped over as a whole**: a brace in it neither opens nor closes
+    anything, and its text stays part of the block -/
+theorem block_scan_skips_comments_and_strings (fuel : Nat) (c : Char) (cs : List Char) (nesting : Nat) (acc : List Char)
+    (hc : c = ';' ∨ c = '"')
+    (hk : (decideNextToken (c :: cs)).1 = .Comment ∨ (decideNextToken (c :: cs)).1 = .String) :
+    untilClosingBraceAux (fuel + 1) (c :: cs) nesting acc =
+      (let n := (decideNextToken (c :: cs)).2
+       let n := if n == 0 then 1 else n
+       untilClosingBraceAux fuel ((c :: cs).drop n) nesting (((c :: cs).take n).reverse ++ acc)) := by
+  rw [untilClosingBraceAux]
+  have h1 : (c == ';' || c == '"') = true := by rcases hc with rfl | rfl <;> decide
+  have h2 : ((decideNextToken (c :: cs)).1 == .Comment || (decideNextToken (c :: cs)).1 == .String) = true := by
+    rcases hk with h | h <;> simp [h]
+  simp only [h1, h2, Bool.and_self, if_true]
+
+/-- outside comments and strings, the block ends at the first closing brace at nesting depth 0 -/
+theorem block_scan_ends_at_closing_brace (fuel : Nat) (cs : List Char) (acc : List Char) :
+    untilClosingBraceAux (fuel + 1) ('}' :: cs) 0 acc = (acc.reverse, '}' :: cs) := by
+  rw [untilClosingBraceAux]
+  simp
+
 end Casm.C17
